@@ -227,7 +227,7 @@ TAG_ITEM_CHANGE_NAME_FROM_ITEM = {
 # These attributes are binary (only accept true/false)
 TAG_ITEM_BINARY_ATTRIBUTES = { 'hidden', 'checked', 'selected',
     'autoplay', 'controls', 'loop', 'muted',
-    'compact', 'novalidate', 'noresize', 'autofocus', 'disabled', 'formnovalidate', 'multiple', 'readOnly', 'required',
+    'compact', 'novalidate', 'noresize', 'autofocus', 'disabled', 'formnovalidate', 'multiple', 'readonly', 'required',
     'declare', 'reversed', 'async', 'defer', 'nowrap', 'default',
     }
 
